@@ -24,7 +24,7 @@ RULE = ("cases = regressor (NICKernelRegressor with random proper/improper prior
 ASSUMPTIONS = ["'proper prior' = kappa_0 > 0 and nu_0 > 2: for nu <= 2 the Student-t variance is mathematically infinite (DESIGN 5.6)",
                "kernel mass N is recomputed by the monitor with sklearn.metrics.pairwise_kernels"]
 REQUIRED_MONITORS = ["C15.predict-vs-distribution", "C15.sample_y-contract", "C15.fallback-contract"]
-REGS = ["nic", "nic_improper", "nw", "sk_lin", "sk_tree", "sk_svr", "sk_fail", "sk_lassocv", "skn_gp_alpha0", "skn_gp", "skn_br", "skn_ard", "skn_fail"]
+REGS = ["nic", "nic_improper", "nw", "sk_lin", "sk_tree", "sk_svr", "sk_fail", "sk_lassocv", "sk_pretrained_sgd", "skn_gp_alpha0", "skn_gp", "skn_br", "skn_ard", "skn_fail"]
 
 
 def gen_cases(tier, seed):
@@ -61,6 +61,11 @@ def _make(name, rng):
         # prior (0 / 1) instead of raising NotFittedError
         from sklearn.gaussian_process import GaussianProcessRegressor
         return SklearnNormalRegressor(GaussianProcessRegressor(alpha=0.0, random_state=0), random_state=0)
+    if name == "sk_pretrained_sgd":
+        # the estimator parameter is a model trained elsewhere: after a failed fit its predictions must not come back
+        from sklearn.linear_model import SGDRegressor
+        Xp = np.round(rng.randn(30, 2), 3)
+        return SklearnRegressor(SGDRegressor(random_state=0, max_iter=20, tol=None).fit(Xp, 3 * Xp[:, 0] + 10), random_state=0)
     if name == "sk_fail":
         return SklearnRegressor(FailingRegressor(), random_state=0)
     if name == "skn_fail":
@@ -177,6 +182,15 @@ def run_case(desc):
             if lab.sum() == 0:
                 if not np.allclose(mu, 0.0):
                     add("fallback-mean-not-zero-without-labels", "%r" % mu.tolist()[:4])
+                if hasattr(reg, "partial_fit") and hasattr(reg.estimator, "partial_fit"):
+                    # every further fitting attempt without a label fails as well: the fall-back keeps answering
+                    with _w.catch_warnings():
+                        _w.simplefilter("ignore")
+                        reg.partial_fit(X[: max(1, n // 2)], y[: max(1, n // 2)])
+                    mu_b = np.asarray(reg.predict(Q), dtype=float)
+                    contracts.count("C15.fallback-after-failing-partial_fit")
+                    if not np.allclose(mu_b, 0.0):
+                        add("fallback-lost-after-a-failing-partial_fit", "fit and partial_fit without any label, then predict: %r" % mu_b.tolist()[:4])
             elif name.endswith("_fail") or (name == "sk_lassocv" and lab.sum() < 3) or announced_failure:
                 if not np.allclose(mu, np.mean(yt[lab])):
                     add("fallback-mean-not-the-label-mean", "%r vs %r" % (mu.tolist()[:3], float(np.mean(yt[lab]))))
